@@ -122,7 +122,8 @@ pub struct GenCase {
     /// through with_min_opcodes / with_max_opcodes instead of with_opcode_range; bit 1 - mutators added one
     /// by one with with_mutator instead of with_mutators; bit 2 - knobs written to the public fields;
     /// bit 3 - setters that would only restate a default (unsafe=false, ext=false, buffer=false) are not
-    /// called; bit 4 - the caller takes the public `output` buffer after every earlier call
+    /// called; bit 4 - the caller takes the public `output` buffer after every earlier call; bit 5 -
+    /// `Generator::default()` + the public `state.version` field instead of `Generator::new(version)`
     #[serde(default)]
     pub build_style: u8,
     /// `with_buffer_size(n)` (documented as limiting the pickle size; a no-op in the tree as given)
@@ -184,7 +185,14 @@ impl GenCase {
     /// Build the real generator exactly the way the repository's own callers do
     /// (mutators are created with the generator's own unsafe flag, as in main.rs).
     pub fn build(&self, spy: Option<&SpyLog>) -> Generator {
-        let mut g = Generator::new(self.version());
+        let mut g = if self.build_style & 32 != 0 {
+            // Generator::default() plus the public `state.version` field instead of Generator::new(version)
+            let mut g = Generator::default();
+            g.state.version = self.version();
+            g
+        } else {
+            Generator::new(self.version())
+        };
         if self.build_style & 4 != 0 {
             g.min_opcodes = self.min_opcodes;
             g.max_opcodes = self.max_opcodes;
@@ -630,7 +638,7 @@ pub fn gencase(p: &Profile) -> BoxedStrategy<GenCase> {
         prop_oneof![2 => Just(false), 1 => Just(true)],
         prop_oneof![2 => Just(false), 1 => Just(true)],
         prop_oneof![14 => Just(0u8), 4 => Just(1u8), 2 => Just(2u8)],
-        (prop_oneof![3 => Just(0u8), 3 => 0u8..32], prop_oneof![9 => Just(None), 1 => proptest::sample::select(vec![16usize, 64, 256, 320, 1024, 4096, 1 << 20]).prop_map(Some)]),
+        (prop_oneof![3 => Just(0u8), 3 => 0u8..64], prop_oneof![9 => Just(None), 1 => proptest::sample::select(vec![16usize, 64, 256, 320, 1024, 4096, 1 << 20]).prop_map(Some)]),
     )
         .prop_map(move |(protocol, entropy, (min, max), mutators, rate, uns, ext, buf, prior, (style, bufsize))| GenCase {
             protocol,
